@@ -23,18 +23,22 @@ RULE = (
     "one case = one seeded merge_to (store pairing bzr/memory/git, source and destination tag dicts built from the "
     "four name classes source-only / destination-only / identical / differing, overwrite, selector, bound master with "
     "its own dict, ignore_master, optional err_before|crash at mutating store op k) plus its round-trip ops; "
+    "or, instead of a fault, a second writer (1-3 set_tag/delete_tag calls on the destination through its own Branch "
+    "object) interleaved with the merge at every store op (random|pct|rr schedules); "
     "non-trivial = at least two of the four name classes are present and the destination was read back through a "
-    "fresh object; distinct = distinct event-log digests of such runs"
+    "fresh object (two-writer runs: the merge completed and the scheduler switched actors at least once); distinct = "
+    "distinct event-log digests of such runs"
 )
 COMPONENTS = {
     "real": ["breezy.tag (Tags.merge_to, InterTags.merge/_merge_to, _reconcile_tags, MemoryTags)", "breezy.bzr.tag.BasicTags (bencode tags file, set_tag/delete_tag with master propagation)", "breezy.git.branch (LocalGitTagDict, InterTagsFromGitToLocalGit, InterTagsFromGitToNonGit) on dulwich disk repositories", "BzrBranch locking (LockDir), Branch.bind/get_master_branch", "breezy.memorybranch.MemoryBranch"],
-    "simulated": ["disk of the bzr branches (SimTransport over memory transport)", "transport error / process crash at the k-th mutating op of the merge", "clock of breezy.lockdir", "fresh process (new objects, break_lock) after a fault"],
+    "simulated": ["disk of the bzr branches (SimTransport over memory transport)", "process scheduling at every store op (merge vs second writer, private object graphs)", "transport error / process crash at the k-th mutating op of the merge", "clock of breezy.lockdir", "fresh process (new objects, break_lock) after a fault"],
     "stub": ["UI", "git repositories live on the real scratch file system (not routed through the seam)"],
 }
 ASSUMPTIONS = [
     "tag names are str without lone surrogates (they must be UTF-8 encodable); bzr names range over spaces, control characters, NUL, combining and non-BMP characters and the empty string; bzr revision ids are arbitrary byte strings (ghosts, empty, non-UTF-8, whitespace)",
     "git tag names are restricted to strings that are valid git ref components (no space, control characters, ~^:?*[\\, '..', no 'a' next to 'a/b'); git tag values are commits present in every git repository of the run (git refuses ghosts: LocalGitTagDict._set_tag_dict drops them silently, which is the format's documented limitation supports_tags_referencing_ghosts()=False, not tested here); lightweight tags only",
     "a bound target is reconciled individually with the same source as its master (documented in InterTags.merge); returned updates/conflicts are the unions",
+    "two-writer runs: every call is judged as one atomic step (each takes the destination's write lock for its read-modify-write); the run must equal some placement of the merge among the second writer's calls, jointly for the final dict, the returned (updates, conflicts) and each call's ok/NoSuchTag outcome; LockContention = that call was not done",
     "after a fault a fresh process applies the documented manual step break_lock before re-use; 'old or new' is judged per branch (target and master are separate files)",
 ]
 STEP_CAP = 6000
@@ -79,7 +83,7 @@ def config(tier):
 
 # -- generation ------------------------------------------------------------------------------
 
-KINDS = ["bzr2bzr", "bzr2bzr", "bzr2bound", "bzr2bound", "bzr2mem", "mem2bzr", "mem2bound", "git2bzr", "git2bound", "bzr2git", "git2git"]
+KINDS = ["bzr2bzr", "bzr2bzr", "bzr2bzr", "bzr2bzr", "bzr2bound", "bzr2bound", "bzr2mem", "mem2bzr", "mem2bound", "git2bzr", "git2bound", "bzr2git", "git2git"]
 BZR_NAMES = ["v1", "rel 1.0", " lead", "trail ", "", "\u00e9", "e\u0301", "\U0001f600tag", "a/b", "tab\there", "new\nline", "x" * 200, "\u00df", "\u0661\u0662", "tag:colon", "l:10", "\u65e5\u672c\u8a9e", "q'\"", "nul\x00in", "0", "-dash"]
 BZR_ALPHA = list("ab Z9._-/:'\"\\\t\n") + ["\u00e9", "\u0301", "\U0001f600", "\U00010348", "\u00a0", "\x00", "\u200b", "\u65e5"]
 GIT_NAMES = ["v1", "rel-1.0", "\u00e9", "e\u0301", "\U0001f600tag", "ns/sub", "\u00df", "\u65e5\u672c\u8a9e", "x_y", "UPPER", "upper", "1.2.3", "a-b"]
@@ -198,6 +202,33 @@ def generate(rng, tier):
             plan["ops"].append(["rename", m])
         else:
             plan["ops"].append(["reopen"])
+    if kind in ("bzr2bzr", "mem2bzr") and rng.random() < 0.65:
+        # two writers: the merge runs while a second process tags / untags the destination
+        plan["ops"] = []
+        race = []
+        # the merge must have something to store, or there is nothing to interleave with
+        dnames = {e[0] for e in dst}
+        if not any(e[0] not in dnames for e in src):
+            extra = [n for n in _names(rng, False, 3) if n not in dnames and n not in {e[0] for e in src}][:1] or ["only-in-source"]
+            src.append([extra[0], val(False)])
+            allnames = sorted(set(allnames) | {extra[0]})
+        if selector is not None and selector["kind"] != "all":
+            plan["selector"] = None if rng.random() < 0.7 else {"kind": "set", "names": sorted({e[0] for e in src})}
+        pool = allnames + _names(rng, False, 2)
+        for _ in range(rng.choice([1, 2, 2, 3, 3])):
+            for _ in range(rng.choice([0, 0, 1, 2])):
+                race.append(["read"])  # (shifts the second writer's phase against the merge)
+            nm = rng.choice(pool)
+            if rng.random() < 0.75:
+                race.append(["set", nm, val(False)])
+            else:
+                race.append(["delete", nm])
+        plan["race"] = race
+        plan["rounds"] = rng.choice([6, 8, 10, 12])  # the same race repeated on fresh destinations under the continuing schedule
+        plan["policy"] = rng.choice(["random", "random", "random", "random", "pct", "rr"])
+        if plan["policy"] == "pct":
+            plan["preempt_at"] = sorted(rng.sample(range(15, 110), rng.randint(3, 9)))
+        return plan
     if not dst_git and kind != "bzr2mem" and rng.random() < 0.45:
         top = 16 if bound else 9
         plan["faults"] = [{"kind": rng.choice(["err_before", "crash"]), "at": rng.choice([4, 4, 4, 11, 11] + list(range(1, top))), "count": "mut", "applied": rng.random() < 0.5, "err": rng.choice(["transport", "enospc", "permission"])}]
@@ -461,6 +492,11 @@ def execute(sim, plan):
     want_t, want_m, want_u, want_c = expect(dst, mst)
     sim.event("merge", kind, overwrite, ignore_master, plan["selector"] and plan["selector"]["kind"], sorted(classes), fkind)
 
+    if plan.get("race"):
+        for rnd in range(plan.get("rounds", 1)):
+            run_race(sim, plan, kind, src, dst, rv, overwrite, selector, open_source, url, classes, rnd)
+        return
+
     # -- the merge under test ---------------------------------------------------------------
     outcome = "ok"
     sim.arm(plan.get("faults", []))
@@ -583,3 +619,142 @@ def execute(sim, plan):
                 diff = sorted(set(got.items()) ^ set(model.items()), key=repr)[:4]
                 fail("roundtrip", f"{label}:{k}", f"after {k} {op[1:]!r} the {label} dict read back through a fresh object differs from the model in {diff}")
     sim.state_seen((kind, overwrite, ignore_master, plan["selector"] and plan["selector"]["kind"], tuple(sorted(classes)), fkind, outcome, bool(want_c)))
+
+
+# -- two writers --------------------------------------------------------------------------------
+
+
+def run_race(sim, plan, kind, src, dst, rv, overwrite, selector, open_source, url, classes, rnd):
+    """Actor A merges into the destination while actor B sets / deletes tags on it through its
+    own Branch object; the seeded scheduler switches at store operations.  Every operation
+    takes the destination's write lock for its read-modify-write, so the outcome must be the
+    outcome of SOME serial order: the merge placed before, between or after B's operations -
+    for the final dict, for the (updates, conflicts) the merge returned and for the
+    NoSuchTag / ok outcome of each of B's calls together."""
+    from breezy import errors
+    from breezy.branch import Branch
+
+    ops = plan["race"]
+    a_res = {}
+    b_res = []
+    durl = url + f"race{rnd}"
+    tb = storesim.make_branch(durl, "2a")
+    tb.tags._set_tag_dict(dict(dst))
+    del tb
+
+    def open_target():
+        return Branch.open(durl).tags
+
+    def stored_state(opener):
+        storesim.clear_caches()
+        return dict(opener().get_tag_dict())
+
+    def do_merge():
+        r = open_source().merge_to(open_target(), overwrite=overwrite, selector=selector)
+        return dict(r[0]), {tuple(c) for c in r[1]}
+
+    def actor_a():
+        try:
+            a_res["ret"] = do_merge()
+        except errors.LockContention:
+            a_res["contention"] = True
+            sim.probe("race_merge_lock_contention")
+
+    def actor_b():
+        tags = open_target()
+        for _ in range(rnd % 5):
+            tags.get_tag_dict()  # each round starts the second writer at another phase of the merge
+        for op in ops:
+            try:
+                if op[0] == "read":
+                    tags.get_tag_dict()
+                elif op[0] == "set":
+                    tags.set_tag(op[1], rv(op[2]))
+                else:
+                    tags.delete_tag(op[1])
+                b_res.append("ok")
+            except errors.NoSuchTag:
+                b_res.append("NoSuchTag")
+            except errors.LockContention:
+                b_res.append("contention")
+                sim.probe("race_writer_lock_contention")
+            sim.event("B", op[0], b_res[-1])
+
+    sim.steps = 0  # pre-emption points of the plan count from the start of the race
+    an, bn = f"A{rnd}", f"B{rnd}"
+    sim.spawn(an, actor_a)
+    sim.spawn(bn, actor_b)
+    sim.run_actors(names=[an, bn])
+    for n in (an, bn):
+        a = sim.actors[n]
+        if a.exc is not None and not isinstance(a.exc, SimCrash):
+            import traceback
+
+            sim.fail("race", ["race", "preempt", f"{kind}:actor-raises:{type(a.exc).__name__}"], f"actor {n} failed: {type(a.exc).__name__}: {a.exc}\n" + "".join(traceback.format_exception(a.exc))[-1500:])
+    # (judged by the main actor: a restarted main would be taken for a runnable actor by the next round)
+    final = stored_state(open_target)
+    merged = "ret" in a_res
+
+    def serial(pos):
+        cur = dict(dst)
+        outcomes = []
+        ret = None
+
+        def merge():
+            nonlocal cur, ret
+            cur, upd, conf = reconcile(src, cur, overwrite, selector)
+            ret = (upd, conf)
+
+        for i, op in enumerate(ops):
+            if merged and i == pos:
+                merge()
+            if b_res[i] == "contention":
+                outcomes.append("contention")  # gave up: counts as not done
+                continue
+            if op[0] == "read":
+                outcomes.append("ok")
+            elif op[0] == "set":
+                cur[op[1]] = rv(op[2])
+                outcomes.append("ok")
+            elif op[1] in cur:
+                del cur[op[1]]
+                outcomes.append("ok")
+            else:
+                outcomes.append("NoSuchTag")
+        if merged and pos == len(ops):
+            merge()
+        return cur, ret, outcomes
+
+    positions = range(len(ops) + 1) if merged else [0]
+    witnesses = []
+    for pos in positions:
+        cur, ret, outcomes = serial(pos)
+        if cur == final and outcomes == b_res and (not merged or (ret[0] == a_res["ret"][0] and ret[1] == a_res["ret"][1])):
+            witnesses.append(pos)
+    sim.event("race", merged, b_res, witnesses)
+    sim.probe("race_runs")
+    if sim.switches:
+        sim.probe("race_interleaved")
+    if not witnesses:
+        # name what is wrong for the signature
+        what = "no-serial-order"
+        last = {}
+        for i, op in enumerate(ops):
+            if b_res[i] == "ok" and op[0] != "read":
+                last[op[1]] = rv(op[2]) if op[0] == "set" else None
+        for name, v in sorted(last.items()):
+            taken_by_merge = merged and name in src and (selector is None or selector(name)) and final.get(name) == src[name]
+            if v is not None and final.get(name) != v and not taken_by_merge:
+                what = "acknowledged-tag-lost"
+                break
+            if v is None and name in final and not (merged and name in src and (selector is None or selector(name))):
+                what = "acknowledged-delete-undone"
+                break
+        allfinals = [(pos, show(serial(pos)[0])) for pos in positions]
+        sim.fail(
+            "race",
+            ["race", "preempt", f"{kind}:not-serializable"],
+            f"[{what}] merge_to(overwrite={overwrite}, selector={plan['selector']}) of {show(src)} into {show(dst)} raced with {ops} (outcomes {b_res}); final destination {show(final)}, merge returned {a_res.get('ret')}; no placement of the merge among the second writer's operations explains this (serial results {allfinals})",
+        )
+    sim.nontrivial = sim.nontrivial or (len(classes) >= 1 and sim.switches >= 1 and merged)
+    sim.state_seen((kind, "race", overwrite, len(ops), tuple(b_res), merged, len(witnesses)))
